@@ -63,6 +63,42 @@ func (x *Exec) callExtern(p *Path, callee *ssa.Function, _ string, args []SV, re
 			p.wfKnown = p.H
 		}
 		return true
+	case "(*sync.WaitGroup).Add", "(*sync.WaitGroup).Done", "(*sync.WaitGroup).Wait":
+		w := args[0]
+		if w.K != KLoc {
+			x.errorf("%s: WaitGroup receiver is not a cell", x.cur.ct.Func)
+			return false
+		}
+		cur := fmt.Sprintf("(select (CInt %s) %s)", p.H, w.Loc.Cell)
+		switch callee.Name() {
+		case "Add":
+			x.guard(p, fmt.Sprintf("(>= (+ %s %s) 0)", cur, args[1].T), "negative WaitGroup counter", in)
+			x.store1(p, "CInt", w.Loc.Cell, fmt.Sprintf("(+ %s %s)", cur, args[1].T))
+		case "Done":
+			x.guard(p, fmt.Sprintf("(> %s 0)", cur), "negative WaitGroup counter", in)
+			x.store1(p, "CInt", w.Loc.Cell, fmt.Sprintf("(- %s 1)", cur))
+		case "Wait":
+			// every minted token must have been handed to a goroutine that Dones it (else Wait blocks forever)
+			x.oblig(p, "async/wait-all-tokens-consumed", fmt.Sprintf("(= %s 0)", cur), x.cur.ct.Props, x.pos(in))
+			p.assume(fmt.Sprintf("(= %s 0)", cur))
+			p.waited = true
+		}
+		return true
+	case "(*sync.Mutex).Lock", "(*sync.Mutex).Unlock":
+		m := args[0]
+		if m.K != KLoc {
+			x.errorf("%s: Mutex receiver is not a cell", x.cur.ct.Func)
+			return false
+		}
+		cur := fmt.Sprintf("(select (CBool %s) %s)", p.H, m.Loc.Cell)
+		if callee.Name() == "Lock" {
+			x.oblig(p, "async/lock-not-held", "(not "+cur+")", x.cur.ct.Props, x.pos(in))
+			x.store1(p, "CBool", m.Loc.Cell, "true")
+		} else {
+			x.guard(p, cur, "unlock of unlocked mutex", in)
+			x.store1(p, "CBool", m.Loc.Cell, "false")
+		}
+		return true
 	case "fmt.Sprintf":
 		// format + varargs: result is an uninterpreted function of the format and the (up to 3) arguments
 		va := args[1]
